@@ -9,7 +9,7 @@
    recovered g h        : a fresh instance after setup, then recover(h).
    pview (obs g s)      : num_proposals, num_feedbacks, population with fitness and ids, de-duplication
                           cache, and the same of a wrapped feedback-driven generator. *)
-From PG Require Import Common.Tactics Model.Recover Proofs.RecoverBase Proofs.RecoverEvo Proofs.RecoverDedup Proofs.RecoverMain Proofs.RecoverParts.
+From PG Require Import Common.Tactics Model.Recover Proofs.RecoverBase Proofs.RecoverEvo Proofs.RecoverDedup Proofs.RecoverMain Proofs.RecoverParts Proofs.RecoverFresh.
 
 (* Every configuration the syntax can name — Sweeping, seeded Random, Evolution with any initialiser /
    reproduction table / update selector (None, Last n, Top n, newest generation, recorded table), Deduping over
@@ -59,6 +59,34 @@ Theorem C15_recover_from_stored_proposals : forall (m : Z) (a : alg) (rw : Z -> 
   pview (obs g (recovered g hm)) = pview (obs g (r_st g r)).
 Proof. exact recover_from_stored_proposals_b. Qed.
 Print Assumptions C15_recover_from_stored_proposals.
+
+(* ... and that hypothesis always holds for the two histories the property is about (no per-case check needed):
+   every generator proposes DNAs without a feedback sequence number (fresh_prop) and feedback returns the DNA
+   itself or the DNA with sequence number and fitness set (fb_form).
+   (1) the history of a backend that stores each DNA when it is proposed and the reward when it arrives
+       ([run0_events], the function the model's [sim] uses); *)
+Theorem C15_recover_from_proposal_time_history : forall (m : Z) (a : alg) (rw : Z -> Z) (evs : list Z),
+  recoverable a = true ->
+  let g := denote m a in
+  let r := run_events g rw evs in
+  let h0 := snd (run0_events g rw evs) in
+  r_ok g r = true ->
+  pview (obs g (recovered g h0)) = pview (obs g (r_st g r)).
+Proof. exact recover_from_proposal_time_history. Qed.
+Print Assumptions C15_recover_from_proposal_time_history.
+
+(* (2) the reward of the oldest in-flight proposal reached the history but the process died before feedback():
+       recovery reaches the state of the run in which that feedback was delivered. *)
+Theorem C15_recover_with_undelivered_reward : forall (m : Z) (a : alg) (rw : Z -> Z) (evs : list Z) (d : dna) (ro : option Z),
+  recoverable a = true ->
+  let g := denote m a in
+  let r := run_events g rw evs in
+  r_ok g r = true ->
+  nth_error (r_hist g r) (r_ptr g r) = Some (d, ro) ->
+  pview (obs g (recovered g (set_nth (r_ptr g r) (d, Some (reward_for rw d)) (r_hist g r))))
+  = pview (obs g (r_st g (step g rw r 1))).
+Proof. exact recover_with_undelivered_reward. Qed.
+Print Assumptions C15_recover_with_undelivered_reward.
 
 (* recover() called twice, with two consecutive parts of the history ("could be called multiple times if there
    are multiple source of history"), reaches the same observable state. *)
